@@ -12,7 +12,14 @@ mod c08;
 mod c14;
 mod c18;
 mod c19;
+mod c11;
+mod c12;
+mod c13;
+mod c15;
+mod c16;
 mod common;
+mod programs;
+mod worker;
 
 use common::*;
 use psc_model::{
@@ -31,6 +38,11 @@ fn tape_checks<'a>(ctx: &'a Ctx) -> Vec<(&'static str, Box<CheckFn<'a>>)> {
 		"C14" => c14::tape_checks(ctx),
 		"C18" => c18::tape_checks(ctx),
 		"C19" => c19::tape_checks(ctx),
+		"C11" => c11::tape_checks(ctx),
+		"C12" => c12::tape_checks(ctx),
+		"C13" => c13::tape_checks(ctx),
+		"C15" => c15::tape_checks(ctx),
+		"C16" => c16::tape_checks(ctx),
 		_ => vec![],
 	}
 }
@@ -46,8 +58,20 @@ fn run_property(ctx: &Ctx) -> Option<(Level, Report)> {
 		"C14" => c14::run(ctx),
 		"C18" => c18::run(ctx),
 		"C19" => c19::run(ctx),
+		"C11" => c11::run(ctx),
+		"C12" => c12::run(ctx),
+		"C13" => c13::run(ctx),
+		"C15" => c15::run(ctx),
+		"C16" => c16::run(ctx),
 		_ => return None,
 	})
+}
+
+fn worker_budget(property: &str, name: &str) -> (u32, u32, usize) {
+	match property {
+		"C11" => c11::budget(name),
+		_ => (1000, 10, 1024),
+	}
 }
 
 fn replay_direct(ctx: &Ctx, doc: &Value) -> Option<Result<(), Violation>> {
@@ -81,13 +105,28 @@ fn replay(ctx: &Ctx, path: &str) -> i32 {
 			eprintln!("replay: property {} has no tape check named {name:?}", ctx.property);
 			return 2;
 		};
-		let mut st = Stats::default();
-		match run_tape(&**check, &tape, &mut st) {
-			Ok(r) => r,
-			Err(p) => {
-				eprintln!("INCONCLUSIVE replay panicked in the harness: {p}");
-				return 2;
-			},
+		if doc["in_worker"] == true {
+			match worker::run_tape_in_child(ctx, name, &tape, &[]) {
+				worker::TapeRun::Ok => Ok(()),
+				worker::TapeRun::Viol(v) => Err(v),
+				worker::TapeRun::Died(how) => Err(Violation::new(
+					doc["signature"].as_str().unwrap_or("crash").to_string(),
+					format!("the worker process dies on this case: {how}"),
+				)),
+				worker::TapeRun::Broken(b) => {
+					eprintln!("INCONCLUSIVE replay: {b}");
+					return 2;
+				},
+			}
+		} else {
+			let mut st = Stats::default();
+			match run_tape(&**check, &tape, &mut st) {
+				Ok(r) => r,
+				Err(p) => {
+					eprintln!("INCONCLUSIVE replay panicked in the harness: {p}");
+					return 2;
+				},
+			}
 		}
 	} else {
 		match replay_direct(ctx, &doc) {
@@ -118,9 +157,28 @@ fn main() {
 		eprintln!("usage: psc-verif <Cxx> quick|thorough | psc-verif <Cxx> --replay <file>");
 		std::process::exit(2);
 	}
-	let property: &'static str = Box::leak(args[1].clone().into_boxed_str());
 	install_quiet_panic_hook();
 	self_test_or_exit();
+	if args[1] == "--worker-random" || args[1] == "--worker-tape" {
+		// child side of the crash-recovering worker
+		let property: &'static str = Box::leak(args[2].clone().into_boxed_str());
+		let tier = if args[3] == "thorough" { Tier::Thorough } else { Tier::Quick };
+		let ctx = Ctx::new(property, tier);
+		let name = args[4].as_str();
+		let checks = tape_checks(&ctx);
+		let Some((_, check)) = checks.iter().find(|(n, _)| *n == name) else {
+			eprintln!("worker: no check {name}");
+			std::process::exit(2);
+		};
+		let code = if args[1] == "--worker-random" {
+			let (q, f, t) = worker_budget(property, name);
+			worker::child_random(&ctx, name, q, f, t, &**check)
+		} else {
+			worker::child_tape(&**check, &unhex(&args[5]))
+		};
+		std::process::exit(code);
+	}
+	let property: &'static str = Box::leak(args[1].clone().into_boxed_str());
 	let code = if args[2] == "--replay" {
 		let ctx = Ctx::new(property, Tier::Quick);
 		replay(&ctx, args.get(3).map(|s| s.as_str()).unwrap_or(""))
